@@ -54,6 +54,7 @@ func main() {
 	verif := flag.String("verif", "/verif", "verif root")
 	out := flag.String("out", "/verif/.build", "output dir")
 	extra := flag.String("patchdir", "", "optional directory tree of replacement files (relative to repo root) applied on top; used by self-tests")
+	minExports := flag.String("minexports", "", "comma separated packages whose export file is taken from shim/exports-min (public API only) because the full one does not compile against this tree")
 	flag.Parse()
 
 	ovDir := filepath.Join(*out, "ov")
@@ -128,7 +129,13 @@ func main() {
 			continue
 		}
 		pkg := strings.ReplaceAll(strings.TrimSuffix(f.Name(), ".go"), "__", "/")
-		replace[filepath.Join(*repo, pkg, "zz_verif.go")] = filepath.Join(shimRoot, "exports", f.Name())
+		src := filepath.Join(shimRoot, "exports", f.Name())
+		for _, m := range strings.Split(*minExports, ",") {
+			if m == pkg && fileExists(filepath.Join(shimRoot, "exports-min", f.Name())) {
+				src = filepath.Join(shimRoot, "exports-min", f.Name())
+			}
+		}
+		replace[filepath.Join(*repo, pkg, "zz_verif.go")] = src
 	}
 
 	ov := map[string]interface{}{"Replace": replace}
